@@ -4,7 +4,6 @@ import (
 	"bytes"
 	"encoding/base64"
 	"fmt"
-	"strings"
 
 	"github.com/gdamore/encoding"
 	icl "github.com/moov-io/imagecashletter"
@@ -75,9 +74,35 @@ func runC08(cfg *config) *Report {
 	var files []*icl.File
 	var notes []string
 	for i := 0; i < n; i++ {
-		f, err := genFile(r, genOpts{maxCL: 2, maxBundles: 2, maxItems: 3, mutateP: 60, sig7: i%4 == 2})
+		o8 := genOpts{maxCL: 2, maxBundles: 2, maxItems: 3, mutateP: 60, sig7: i%4 == 2}
+		if i%8 == 3 {
+			o8.kind = 1 // forward items: the binary-signature case below needs one with an image view
+		}
+		f, err := genFile(r, o8)
 		if err != nil {
 			continue
+		}
+		if i%8 == 3 {
+			for _, cl := range f.CashLetters {
+				for _, b := range cl.Bundles {
+					for _, cd := range b.Checks {
+						if len(cd.ImageViewData) == 0 {
+							cd.AddImageViewDetail(baseImageViewDetail())
+							cd.AddImageViewData(mkIVData(r, genOpts{}))
+							cd.AddImageViewAnalysis(baseImageViewAnalysis())
+						}
+					}
+				}
+			}
+			rebuilt := true
+			for ci := range f.CashLetters {
+				if f.CashLetters[ci].Create() != nil {
+					rebuilt = false
+				}
+			}
+			if !rebuilt || f.Create() != nil {
+				continue
+			}
 		}
 		note := "text"
 		if i%4 == 2 {
@@ -244,8 +269,9 @@ func runC08(cfg *config) *Report {
 		}
 		// (d) all four decode to the same file
 		ref := ""
+		lfInside := !okA || bytes.Contains(bytes.Join(recsA, nil), []byte("\n")) || (okE && bytes.Contains(bytes.Join(recsE, nil), []byte("\n")))
 		for _, c := range []*rtCase{nlA, lpA, nlE, lpE} {
-			if strings.Contains(string(c.out), "\n") && !c.enc.LP && nlA.note != "text" {
+			if lfInside && !c.enc.LP {
 				continue // newline framing cannot carry records containing a line feed
 			}
 			d := c.rerr + " # " + exportedOnly(c.rd)
@@ -261,7 +287,7 @@ func runC08(cfg *config) *Report {
 		if nlA.note == "text" || nlA.note == "punctuation-image" {
 			refOn := ""
 			for _, c := range []*rtCase{nlA, lpA, nlE, lpE} {
-				if strings.Contains(string(c.out), "\n") && !c.enc.LP && nlA.note != "text" {
+				if lfInside && !c.enc.LP {
 					continue
 				}
 				setFRB(true)
